@@ -17,7 +17,7 @@ META = {
                'minor-unit class, thorough all 27722',
                'user currencies: smallest fraction from {10^-k, 0.05, 0.25, 0.5, 0.2} and invalid {0, -0.01, 0.3, '
                '1, 2, "x"} with and without (matching / non-matching) minor unit'],
-    'outside_bounds': ['behaviour with an active money converter (C11, C12)'],
+    'outside_bounds': ['behaviour while a money converter is active (C11, C12); that none stays active after its block or after removal is checked here on 6 pairs'],
     'stubs': ['decimalfp.Decimal(x, precision) rounding contract'],
     'assumptions': ['ISO oracle: own regex parse of iso_4217.xml (code, name, minor units)'],
 }
@@ -57,6 +57,7 @@ def jobs(tier, seed):
         pairs = allpairs
     for i, ch in enumerate(C.chunks(pairs, 16 if tier == 'quick' else 64)):
         out.append({'fn': 'mix', 'cfg': {'pairs': ch, 'fa': 'dec' if i % 2 else 'frac'}})
+    out.append({'fn': 'mix', 'cfg': {'pairs': pairs[:4] + [['EUR', 'USD'], ['USD', 'JPY']], 'fa': 'dec', 'pre': True}})
     out.append({'fn': 'unknown_codes', 'cfg': {}})
     out.append({'fn': 'user_currency', 'cfg': {}})
     out.append({'fn': 'user_currency_sym_minor', 'cfg': {}})
@@ -107,6 +108,47 @@ def mix(E, cfg):
     c1, c2 = E.choice('pair', cfg['pairs'])
     cu1, cu2 = Money.register_currency(c1), Money.register_currency(c2)
     E.check(cu1 is not cu2, 'distinct-currencies')
+    if cfg.get('pre'):
+        # a converter was active earlier and is not any more: the block was left (normally, by an exception of
+        # the caller, by an exception of the library), or it was registered and removed
+        from decimalfp import Decimal
+        from quantity.money import MoneyConverter
+        pre = E.choice('pre', ['with-normal', 'with-exception', 'with-library-exception', 'register-remove',
+                               'nested-inner-exception'])
+        conv = MoneyConverter(cu1)
+        conv.update(None, [(cu2, Decimal('1.25'), 1)])
+        third = Money.register_currency('ISK' if 'ISK' not in (c1, c2) else 'CHF')
+        probe = Money(3, cu1)
+
+        class Boom(Exception):
+            pass
+        if pre == 'with-normal':
+            with conv:
+                E.check(probe.convert(cu2).unit is cu2, 'converter-active-inside-block')
+        elif pre == 'with-exception':
+            try:
+                with conv:
+                    raise Boom()
+            except Boom:
+                pass
+        elif pre == 'with-library-exception':
+            try:
+                with conv:
+                    probe.convert(third)
+            except UnitConversionError:
+                pass
+            else:
+                E.fail('unknown-pair-inside-block-raises', key='pre:unknown-pair-converted')
+        elif pre == 'register-remove':
+            Money.register_converter(conv)
+            Money.remove_converter(conv)
+        else:
+            with conv:
+                try:
+                    with conv:
+                        raise Boom()
+                except Boom:
+                    pass
     E.check(len(list(Money.registered_converters())) == 0, 'no-converter-active')
     a = E.rational('a', cfg['fa'])
     b = E.rational('b', 'dec')
